@@ -1184,8 +1184,19 @@ def scan_to_zero(ctx):
             nc = norm_cmp(cond, True) if cond[0] in ('bin', 'un') else None
             # pos > 0  (normalised: 0 < pos) or pos != 0
             v = None
-            if nc and nc[0] == 'Lt' and nc[1][0] == 'const' and nc[1][2] == 0 and nc[2][0] == 'local':
+            header_floor = 0   # the loop is left through its header when the position is <= header_floor
+            if nc:
+                def _uncast(x):
+                    while isinstance(x, tuple) and x[0] == 'cast':
+                        x = x[-1]
+                    return x
+                nc = (nc[0], _uncast(nc[1]), _uncast(nc[2]))
+            if nc and nc[0] == 'Lt' and nc[1][0] == 'const' and isinstance(nc[1][2], int) and nc[2][0] == 'local':
                 v = nc[2][1]
+                header_floor = nc[1][2]            # while pos > c
+            if nc and nc[0] == 'Le' and nc[1][0] == 'const' and isinstance(nc[1][2], int) and nc[2][0] == 'local':
+                v = nc[2][1]
+                header_floor = nc[1][2] - 1        # while pos >= c
             if nc and nc[0] == 'Ne' and nc[2][0] == 'const' and nc[2][2] == 0 and nc[1][0] == 'local':
                 v = nc[1][1]
             if v is None or 'u64' not in f.local_ty(v) and 'usize' not in f.local_ty(v):
@@ -1217,6 +1228,11 @@ def scan_to_zero(ctx):
             key = '%s:scan-of-%s' % (f.key, f.local_name(v))
             bad = []
             restart_dirty = []
+            if header_floor > 0 and any(_ok_returning(f, w, stop={h}) for w in exit_edge):
+                ctx.violation(key, f.loc(h), 'the scan loop is left through its header as soon as `%s` is <= %d, and the function can then return Ok: up to %d '
+                              'bytes in front of the first recognised unit are never examined (leading junk, the remnant of a deleted member)'
+                              % (f.local_name(v), header_floor, header_floor))
+                continue
             for u in sorted(body):
                 for w in f.succs(u):
                     if w in body or f.blocks[w]['cleanup']:
@@ -1780,6 +1796,8 @@ def scan_progress(ctx):
                 continue
             v = None
             for a, b in ((nc[1], nc[2]), (nc[2], nc[1])):
+                while isinstance(a, tuple) and a[0] == 'cast':
+                    a = a[-1]
                 if a[0] == 'const' and isinstance(a[2], int) and b[0] == 'local':
                     v = b[1]
             if v is None or f.local_ty(v) not in ('u64', 'usize'):
@@ -1876,3 +1894,46 @@ def dict_byte_covers(ctx):
         ctx.ok(key, f.loc(divs[0][0]), '%d integer division(s), none rounds up' % len(divs))
     else:
         ctx.violation(key, f.loc(0), 'cannot find the division that computes the fraction (anchor lost, fail closed)')
+
+
+# --------------------------------------------------------------------------- TAIL-PREFIX
+
+@rule('TAIL-PREFIX', ['C04', 'C05', 'C08'], floor=1)
+def tail_prefix(ctx):
+    """Whatever follows the last LZIP member is trailing data - unless it starts like another member: then the file is
+    damaged or cut. "Starts like" includes a file that ends one, two or three bytes into the next member's magic ("L",
+    "LZ", "LZI"): the single-threaded reader reports that as truncation (MAGIC-PREFIX), so the backward search of the
+    multi-threaded reader has to compare the bytes behind its candidate end with a PREFIX of the magic whose length
+    is the number of bytes that are there, not only whole magics. Structure required in the probing function: an
+    equality call between a variable-length slice of the probed bytes and a slice of the constant "LZIP" of the same
+    (non-constant) length."""
+    F = ctx.facts
+    fs = [f for f in F.fns if f.self_adt and last_seg(f.self_adt) == 'LZIPReaderMT' and f.kind != 'closure' and f.loops()]
+    key = 'LZIPReaderMT:tail-compared-with-a-magic-prefix'
+    found = None
+    probes = 0
+    for f in fs:
+        prov = Prov(f)
+        has_magic_cmp = False
+        for bi, t, c in f.calls():
+            if not (c.trait and last_seg(c.trait) == 'PartialEq' and c.name in ('eq', 'ne')):
+                continue
+            ops = [prov.operand(a, 0, '%d:T' % bi) for a in t['args'][:2]]
+            if not any(const_bytes(x) == SPEC['lzip_magic'] for e in ops for x in expr_walk(e)):
+                continue
+            has_magic_cmp = True
+            for e in ops:
+                for x in expr_walk(e):
+                    if x[0] == 'call' and last_seg(x[1]) == 'index' and len(x[2]) == 2 and const_bytes(x[2][0]) == SPEC['lzip_magic']:
+                        rng = x[2][1]
+                        if rng[0] == 'agg' and str(rng[1]).endswith('RangeTo::RangeTo') and rng[2] and rng[2][0][0] != 'const':
+                            found = (f, bi)
+        if has_magic_cmp:
+            probes += 1
+    if not probes:
+        ctx.anchor_missing('comparison with the LZIP magic in LZIPReaderMT')
+    elif found:
+        ctx.ok(key, found[0].loc(found[1]), 'the bytes behind the candidate end are compared with LZIP_MAGIC[..n], n = number of bytes present')
+    else:
+        ctx.violation(key, fs[0].loc(0) if fs else '-', 'the bytes behind the last member are only compared with the whole magic: a file that ends 1-3 bytes into the '
+                      'next member\'s magic is accepted with the earlier members only, where LZIPReader reports truncation')
